@@ -63,3 +63,12 @@ pub fn unhex_lenient(s: &str) -> Vec<u8> {
     }
     unhex(s)
 }
+
+/// `msg` copied into a larger buffer so that it STARTS at an address ≡ `off` (mod 8): returns (buffer, start index).
+/// (Messages in packed records, behind a one-byte tag, in a sub-slice: where the bytes live must not matter.)
+pub fn at_addr(msg: &[u8], off: usize) -> (Vec<u8>, usize) {
+    let mut big = vec![0xC3u8; msg.len() + 16];
+    let start = (8 - (big.as_ptr() as usize) % 8) % 8 + (off % 8);
+    big[start..start + msg.len()].copy_from_slice(msg);
+    (big, start)
+}
